@@ -453,3 +453,114 @@ void h_addbounce(void)
   V_COVER(pl == NP && rl == NR); V_COVER(pl >= 2 && rep[0] == '\n' && rep[1] == '\n');
 }
 #endif
+
+/* ================= rewrite(): routing (C10) ================= */
+#ifdef P_REWRITE
+#ifndef AB
+#define AB 64
+#endif
+static char ab[AB]; static char recipbuf[4];
+stralloc *g_addr; unsigned g_len0; int g_noat, g_fail, g_phase;   /* phase 0 start, 1 percent loop, 2 locals asked, 3 vdoms */
+int g_pct_hits, g_loc_probes, g_loc_hit, g_vd_last, g_vd_hit, g_vd_hit_off, g_vd_empty, g_K, g_K_probed; unsigned g_at_final, g_len_final;
+char *g_vd_val; static char valbuf[4] = { 'v', 0, 0, 0 }, emptyval[1] = { 0 };
+int g_rw[6], g_nrw; char *g_rwp[6];   /* operations on rwline: 1 copys T, 2 cat addr, 3 append NUL, 4 cats value, 5 cats "-" */
+int stralloc_copys(stralloc *sa, char *s)
+{
+  if (ND_BOOL()) { g_fail = 1; return 0; }
+  if (sa == &rwline) { V_ASSERT(s[0] == 'T' && !s[1] && g_nrw == 0, "C10: a rewritten recipient record starts with T"); g_rw[g_nrw++] = 1; return 1; }
+  V_ASSERT(s == recipbuf, "C10: supporting: the address is copied from the recipient"); g_addr = sa; sa->s = ab; sa->a = AB; sa->len = g_len0; return 1;
+}
+int stralloc_cats(stralloc *sa, char *s)
+{
+  if (ND_BOOL()) { g_fail = 1; return 0; }
+  if (sa == &rwline) { V_ASSERT(g_nrw < 6, "C10: supporting"); if (s[0] == '-' && !s[1]) g_rw[g_nrw] = 5; else { g_rw[g_nrw] = 4; g_rwp[g_nrw] = s; } ++g_nrw; return 1; }
+  V_ASSERT(sa == g_addr && s[0] == '@' && !s[1] && g_noat && sa->len + 1 < AB, "C10: the default host is appended only to addresses without @"); ab[sa->len++] = '@'; return 1;
+}
+int stralloc_cat(stralloc *sa, stralloc *sb)
+{
+  if (ND_BOOL()) { g_fail = 1; return 0; }
+  if (sa == &rwline) { V_ASSERT(sb == g_addr && g_nrw < 6, "C10: the record carries the rewritten address"); g_rw[g_nrw++] = 2; return 1; }
+  V_ASSERT(sa == g_addr && sb == &envnoathost && g_noat && ab[sa->len - 1] == '@', "C10: addresses without @ get the configured default host");
+  { unsigned n = 1 + ND_UINT() % 8, k; V_ASSUME(sa->len + n < AB); for (k = 0; k < 8; ++k) if (k < n) V_ASSUME(ab[sa->len + k] != '@' && ab[sa->len + k] != 0); sa->len += n; }
+  return 1;
+}
+int stralloc_append(stralloc *sa, char *c) { if (ND_BOOL()) { g_fail = 1; return 0; } V_ASSERT(sa == &rwline && !*c && g_nrw < 6, "C10: supporting"); g_rw[g_nrw++] = 3; return 1; }
+/* contract of byte_rchr (proof byte_rchr): index of the LAST occurrence in s[0..n), n if none */
+unsigned int byte_rchr(char *s, unsigned int n, int c)
+{
+  unsigned j = ND_UINT();
+  V_ASSERT(s == ab && n <= AB, "C10: supporting: scans stay inside the address");
+  V_ASSUME(j <= n && (j == n || ab[j] == (char)c));
+  V_ASSUME(__CPROVER_forall { unsigned k; (k < AB) ==> ((k < n && (j == n || k > j)) ==> ab[k] != (char)c) });
+  if (g_phase == 0 && c == '@' && j == n) g_noat = 1;
+  return j;
+}
+char *constmap(struct constmap *cm, char *s, int len)
+{
+  long off = s - ab; unsigned alen = g_addr->len;
+  V_ASSERT(__CPROVER_same_object(s, ab) && off >= 0 && off + len == (long)alen && alen <= AB, "C10: every lookup key is a suffix of the (rewritten) address");
+  if (cm == &mappercenthack) {
+    V_ASSERT(g_phase <= 1 && off >= 1 && ab[off - 1] == '@', "C10: the percent hack is decided on the domain (the part after an @), before anything else");
+    g_phase = 1; if (ND_BOOL()) { if (g_pct_hits < 2) ++g_pct_hits; return "x"; } return 0;
+  }
+  if (cm == &maplocals) {
+    V_ASSERT(g_phase <= 1 && g_loc_probes == 0, "C10: locals is consulted exactly once, after the percent hack and before virtualdomains");
+    V_ASSERT(off >= 1 && ab[off - 1] == '@', "C10: locals is matched against the domain after the last @");
+    V_ASSERT(__CPROVER_forall { unsigned k; (k < AB) ==> ((k >= (unsigned)off && k < alen) ==> ab[k] != '@') }, "C10: locals is matched against the domain after the last @");
+    g_phase = 2; ++g_loc_probes; g_at_final = (unsigned)off - 1; g_len_final = alen;
+    if (ND_BOOL()) { g_loc_hit = 1; return "x"; } return 0;
+  }
+  V_ASSERT(cm == &mapvdoms && g_phase >= 2 && !g_loc_hit && !g_vd_hit, "C10: virtualdomains is consulted only if the domain is not local, and nothing after a hit");
+  g_phase = 3;
+  V_ASSERT(off == 0 || (unsigned)off == g_at_final + 1 || (unsigned)off == alen || ((unsigned)off > g_at_final && ab[off] == '.'), "C10: virtualdomains candidates are the full address, the domain, its dot-suffixes and the empty catch-all");
+  V_ASSERT(off > g_vd_last, "C10: virtualdomains candidates are tried from the most specific to the least, each once");
+  g_vd_last = (int)off; if (off == g_K) g_K_probed = 1;
+  if (ND_BOOL()) { g_vd_hit = 1; g_vd_hit_off = (int)off; g_vd_empty = ND_BOOL(); g_vd_val = g_vd_empty ? emptyval : valbuf; return g_vd_val; }
+  return 0;
+}
+void h_rewrite(void)
+{
+  int r; unsigned k;
+  common_init(); g_len0 = 1 + ND_UINT() % (AB - 12); g_noat = g_fail = g_phase = g_pct_hits = g_loc_probes = g_loc_hit = g_vd_hit = g_nrw = g_K_probed = 0; g_vd_last = -1;
+  g_K = ND_INT(); __CPROVER_havoc_object(ab);
+  valbuf[0] = 'v'; valbuf[1] = 0; emptyval[0] = 0;    /* DFCC makes statics nondeterministic */
+  V_ASSUME(__CPROVER_forall { unsigned k; (k < AB) ==> ((k < g_len0) ==> ab[k] != 0) });
+  r = rewrite(recipbuf);
+  if (g_fail) { V_ASSERT(r == 0, "C10: supporting: out of memory is reported"); return; }
+  V_ASSERT(r == 1 || r == 2, "C10: every recipient is classified as local (1) or remote (2): none is dropped");
+  V_ASSERT(g_loc_probes == 1, "C10: locals is consulted exactly once, after the percent hack and before virtualdomains");
+  if (g_loc_hit) V_ASSERT(r == 1 && g_nrw == 3 && g_rw[0] == 1 && g_rw[1] == 2 && g_rw[2] == 3, "C10: a domain listed as local wins: local, address unprefixed");
+  else if (g_vd_hit && !g_vd_empty) V_ASSERT(r == 1 && g_nrw == 5 && g_rw[0] == 1 && g_rw[1] == 4 && g_rwp[1] == g_vd_val && g_rw[2] == 5 && g_rw[3] == 2 && g_rw[4] == 3, "C10: the most specific virtual-domain entry prepends its tag and makes the address local");
+  else V_ASSERT(r == 2 && g_nrw == 3 && g_rw[0] == 1 && g_rw[1] == 2 && g_rw[2] == 3, "C10: an empty tag (or no entry) leaves the address remote and unprefixed");
+  if (!g_loc_hit && 0 <= g_K && (unsigned)g_K <= g_len_final && (!g_vd_hit || g_K < g_vd_hit_off) &&
+      (g_K == 0 || (unsigned)g_K == g_at_final + 1 || (unsigned)g_K == g_len_final || ((unsigned)g_K > g_at_final && ab[g_K] == '.')))
+    V_ASSERT(g_K_probed, "C10: no more specific virtual-domain candidate was skipped (full address, then domain, then successively shorter dot-suffixes, then catch-all)");
+  V_COVER(g_pct_hits >= 2 && r == 2); V_COVER(g_vd_hit && !g_vd_empty && g_vd_hit_off > 3); V_COVER(g_noat && r == 1);
+}
+#endif
+
+/* ================= regetcontrols (HUP) ================= */
+#ifdef P_REGET
+int g_rl, g_rv, g_frees, g_init_l, g_init_v, g_copied_l, g_copied_v;
+int control_readfile(stralloc *sa, char *fn, int flagme) { if (sa == &newlocals) { g_rl = ND_BOOL() ? 1 : (ND_BOOL() ? 0 : -1); return g_rl; } V_ASSERT(sa == &newvdoms, "C10: supporting"); g_rv = ND_BOOL() ? 1 : (ND_BOOL() ? 0 : -1); return g_rv; }
+void constmap_free(struct constmap *cm) { V_ASSERT(g_rl == 1 && g_rv != -1, "C10: if the control files cannot be re-read the old tables stay in force"); ++g_frees; }
+int stralloc_copy(stralloc *a, stralloc *b) { if (a == &locals) { V_ASSERT(b == &newlocals, "C10: supporting"); g_copied_l = 1; a->len = b->len; } else { V_ASSERT(a == &vdoms && b == &newvdoms, "C10: supporting"); g_copied_v = 1; a->len = b->len; } return 1; }
+int constmap_init(struct constmap *cm, char *s, int len, int flagcolon)
+{
+  if (cm == &maplocals) { V_ASSERT(g_copied_l && s == locals.s && (unsigned)len == locals.len && flagcolon == 0, "C10: after a HUP the locals table is rebuilt from the whole newly read control/locals"); g_init_l = 1; }
+  else { V_ASSERT(cm == &mapvdoms && flagcolon == 1, "C10: supporting: virtualdomains entries are key:value");
+    if (g_rv == 1) V_ASSERT(g_copied_v && s == vdoms.s && (unsigned)len == vdoms.len, "C10: after a HUP the virtualdomains table is rebuilt from the whole newly read control/virtualdomains");
+    else V_ASSERT(len == 0, "C10: a removed virtualdomains file empties the table"); g_init_v = 1; }
+  return 1;
+}
+void h_reget(void)
+{
+  static char lb[8], vb[8], nlb[8], nvb[8];
+  common_init(); g_frees = g_init_l = g_init_v = g_copied_l = g_copied_v = 0; g_rl = g_rv = -2;
+  locals.s = lb; vdoms.s = vb; newlocals.s = nlb; newvdoms.s = nvb; locals.len = ND_UINT(); vdoms.len = ND_UINT(); newlocals.len = ND_UINT(); newvdoms.len = ND_UINT();
+  regetcontrols();
+  if (g_rl == 1 && g_rv != -1) V_ASSERT(g_init_l && g_init_v && g_frees == 2, "C10: after a successful re-read both tables are rebuilt");
+  else V_ASSERT(!g_init_l && !g_init_v && !g_frees, "C10: if the control files cannot be re-read the old tables stay in force");
+  V_COVER(g_init_v && g_rv == 1);
+}
+#endif
